@@ -276,10 +276,10 @@ class RecordType:
         last = noise(ch, sub)          # between the last field and the closing brace
         if multi == 0:
             return ["type %s = {%s}" % (self.name, "; ".join(self.fields))]
-        out = ["type %s = {" % self.name]
+        out = ["type %s = {" % self.name + trail(ch)]
         for f, n in zip(self.fields, ns):
             out += n
-            out.append(sub + f + ";")
+            out.append(sub + f + ";" + trail(ch))
         out += last
         out.append("}")
         return out
